@@ -87,13 +87,17 @@ def sumR (l : List (ClusterSite d)) : IVec d := l.foldl (fun acc s => iAdd acc s
 def shiftPos (n : Nat) (center : IVec d) (s : ClusterSite d) : List Int :=
   List.ofFn fun k => s.R k * (n : Int) - center k
 
-def entryOf (n : Nat) (center : IVec d) (nvac : Nat) (idx : Nat) (s : ClusterSite d) : Entry :=
+/-- key and shifted position of site `idx`.  `mark` = the source marks the transition pair of a non-vacancy
+    transition-state cluster with `(-2,)` (Generated/C36Facts.lean: `tsPairMarked`). -/
+def entryOf (mark transition vacancy : Bool) (n : Nat) (center : IVec d) (nvac : Nat) (idx : Nat)
+    (s : ClusterSite d) : Entry :=
   let r : List Int := [(s.c : Int), (s.i : Int)]
-  let r := if idx < nvac then (if idx = 0 then r ++ [-1] else r ++ [(s.c : Int)]) else r
+  let r := if idx < nvac then (if idx = 0 then r ++ [-1] else r ++ [(s.c : Int)])
+    else if mark && transition && !vacancy && decide (idx < 2) then r ++ [-2] else r
   (r, shiftPos n center s)
 
 /-- `Cluster.__init__` -/
-def Cluster.make (lis : List (ClusterSite d)) (transition vacancy nosort : Bool) : Except String (Cluster d) :=
+def Cluster.make (mark : Bool) (lis : List (ClusterSite d)) (transition vacancy nosort : Bool) : Except String (Cluster d) :=
   let lis := if nosort then lis
     else if transition then lis.take 2 ++ (lis.drop 2).mergeSort sortKeyLe
     else if vacancy then lis.take 1 ++ (lis.drop 1).mergeSort sortKeyLe
@@ -107,7 +111,7 @@ def Cluster.make (lis : List (ClusterSite d)) (transition vacancy nosort : Bool)
     let nvac := if vacancy then (if transition then 2 else 1) else 0
     .ok { sites := sites, transition := transition, vacancy := vacancy
           norder := (n : Int) - (if transition then 2 else if vacancy then 1 else 0)
-          entries := sites.zipIdx.map fun (s, idx) => entryOf n center nvac idx s }
+          entries := sites.zipIdx.map fun (s, idx) => entryOf mark transition vacancy n center nvac idx s }
 
 /-- `Cluster.istransition(site0, site1)` for a transition cluster -/
 def Cluster.isTransition (a : Cluster d) (s0 s1 : ClusterSite d) : Except String Bool :=
